@@ -57,7 +57,9 @@ theorem C02_walk_events_bound (s : Schema) (d : QueryDoc) (evs : List Event) (h 
     particular the bounded searches inside MaxIntrospectionDepth (exponential, but terminating:
     the chain of fragments being visited has pairwise distinct names), SingleFieldSubscriptions
     and NoFragmentCycles never run out of fuel.
-    Missing for the full statement: ValuesOfCorrectType is false (counterexamples below);
+    Missing for the full statement: ValuesOfCorrectType (its former crash witnesses R2a/R2b return
+    normally since the repair, theorems below; its remaining panic site is `Definition.Fields[0]` of a
+    `@oneOf` input object without fields, which a loaded schema cannot contain);
     KnownRootType panics exactly on an operation kind other than query/mutation/subscription,
     which the parser never produces (see `C02_validate_no_panic_parsed_partial`). -/
 theorem C02_validate_no_panic_partial (rs : List Rule) (s : Schema) (d : QueryDoc)
@@ -98,21 +100,27 @@ theorem C02_validate_no_panic_parsed_partial (rs : List Rule) (s : Schema) (d : 
   obtain ⟨errs, he⟩ := runAll_neverPanicsOn (s := s.view) (d := d) hev hr
   exact ⟨errs, by simp only [validate, validateV, hw, he]⟩
 
-/-- R2a, kernel-checked: `{ f(one: {a: $undef}) }` with `input One @oneOf { a: String }` makes
-    ValuesOfCorrectType dereference the nil `VariableDefinition` of the undefined variable. -/
-theorem C02_validate_no_panic_counterexample_R2a :
-    validate [valuesOfCorrectType] Witness.schema Witness.docR2a = .panic nilDeref := by
+/-- `validate` returned an error list (no panic, fuel not exhausted) -/
+def returnsNormally : VResult → Bool
+  | .ok _ => true
+  | _ => false
+
+/-- R2a after the repair (fixed: 7f... "no nil dereference for an undefined variable in a oneOf input
+    object"), kernel-checked: `{ f(one: {a: $undef}) }` with `input One @oneOf { a: String }` no
+    longer makes ValuesOfCorrectType panic; it returns normally (NoUndefinedVariables reports `$undef`). -/
+theorem C02_validate_R2a_returns :
+    returnsNormally (validate [valuesOfCorrectType] Witness.schema Witness.docR2a) = true := by
   decide +kernel
 
-/-- R2b, kernel-checked: `query($v:String!){f} fragment F on Query { f(one:{a:$v}) }` — the
-    variable IS defined, but the fragment is only walked stand-alone (no current operation), so
-    the link is never written. -/
-theorem C02_validate_no_panic_counterexample_R2b :
-    validate [valuesOfCorrectType] Witness.schema Witness.docR2b = .panic nilDeref := by
+/-- R2b after the repair, kernel-checked: `query($v:String!){f} fragment F on Query { f(one:{a:$v}) }`
+    (the fragment is only walked stand-alone, so the variable link is never written) returns normally. -/
+theorem C02_validate_R2b_returns :
+    returnsNormally (validate [valuesOfCorrectType] Witness.schema Witness.docR2b) = true := by
   decide +kernel
 
-/-- the whole modelled default rule set panics on these documents as well -/
-theorem C02_validate_default_panics_R2a : validate defaultRules Witness.schema Witness.docR2a = .panic nilDeref := by
+/-- the whole modelled default rule set returns normally on the former crash witness -/
+theorem C02_validate_default_R2a_returns :
+    returnsNormally (validate defaultRules Witness.schema Witness.docR2a) = true := by
   decide +kernel
 
 /-- non-vacuity of the witnesses: when the operation spreads the fragment the link exists and the
@@ -125,6 +133,6 @@ example : validate [valuesOfCorrectType] Witness.schema Witness.docUsed = .ok []
 #print axioms C02_validate_no_panic_partial
 #print axioms C02_panic_free_rule_names
 #print axioms C02_validate_no_panic_parsed_partial
-#print axioms C02_validate_no_panic_counterexample_R2a
-#print axioms C02_validate_no_panic_counterexample_R2b
-#print axioms C02_validate_default_panics_R2a
+#print axioms C02_validate_R2a_returns
+#print axioms C02_validate_R2b_returns
+#print axioms C02_validate_default_R2a_returns
